@@ -176,7 +176,9 @@ func recordingFinalName(filename string) string {
 
 func deleteTempFiles(directory string) error {
 	matches, _ := filepath.Glob(filepath.Join(directory, "*."+cptvTempExt))
-	for _, filename := range matches {
+	// the CPTV writer keeps its uncompressed data in <name>.tmp next to the temp file
+	scratch, _ := filepath.Glob(filepath.Join(directory, "*."+cptvTempExt+".tmp"))
+	for _, filename := range append(matches, scratch...) {
 		if err := os.Remove(filename); err != nil {
 			return err
 		}
